@@ -117,7 +117,8 @@ func (t *SymbolTable) Var(v Variable) string {
 }
 
 func (t *SymbolTable) Clone() *SymbolTable {
-	newTable := *t
+	newTable := make(SymbolTable, len(*t))
+	copy(newTable, *t)
 	return &newTable
 }
 
